@@ -31,6 +31,19 @@ class StripCommentsFilter:
             else:
                 return sql.Token(T.Whitespace, ' ')
 
+        def _separate_group(token):
+            """The comment leads a nested group: keep the group apart from
+            the token in front of it (see "a/* c */as b")."""
+            node = tlist
+            while node.parent is not None and node.parent.tokens[0] is node:
+                node = node.parent
+            if node.parent is None:
+                return
+            idx = node.parent.token_index(node)
+            prev_ = node.parent.tokens[idx - 1]
+            if not (prev_.is_whitespace or prev_.match(T.Punctuation, '(')):
+                node.parent.tokens.insert(idx, _get_insert_token(token))
+
         sql_hints = (T.Comment.Multiline.Hint, T.Comment.Single.Hint)
         tidx, token = get_next_comment()
         while token:
@@ -64,6 +77,9 @@ class StripCommentsFilter:
                 # a valid SQL (see #425).
                 if prev_ is not None and not prev_.match(T.Punctuation, '('):
                     tlist.tokens.insert(tidx, _get_insert_token(token))
+                elif (prev_ is None and next_ is not None
+                        and not next_.is_whitespace):
+                    _separate_group(token)
                 tlist.tokens.remove(token)
             else:
                 tlist.tokens[tidx] = _get_insert_token(token)
